@@ -1,13 +1,18 @@
 #!/bin/bash
-# tools/ingest_seed.sh <ID> <round> "<checks to run>"  : copy /tmp/wt<round>-<ID>/seed into seeded/<ID>-seed<round>/, drop the worktree
+# tools/ingest_seed.sh <ID> <round> "<check ids>": copy the seed a sub-agent left in /tmp/wt<round>-<ID>/seed to
+# seeded/<ID>-seed<round>/, remove its scratch worktree, then confirm it and run the named checks against it
+# (serialised through a lock: confirm_seed.sh and seed_matrix.sh use fixed scratch paths).
 set -u
-id=$1; rnd=$2; checks=$3
-src=/tmp/wt$rnd-$id/seed
-d=/verif/seeded/$id-seed$rnd
-[ -d $src ] || { echo "no $src"; exit 1; }
-mkdir -p $d
-cp -r $src/. $d/
-rm -f $d/suite_with_patch.log $d/*.log
-echo "$checks" > $d/checks.txt
-git -C /repo worktree remove --force /tmp/wt$rnd-$id && echo "ingested $id -> $d"
-ls $d
+ID=$1; R=$2; CH=$3
+WT=/tmp/wt$R-$ID; D=/verif/seeded/$ID-seed$R
+[ -d $WT/seed ] || { echo "no $WT/seed"; exit 1; }
+mkdir -p $D; cp -r $WT/seed/. $D/; echo "$CH" > $D/checks.txt
+git -C /repo worktree remove --force $WT; rm -rf $WT
+(
+  flock 9
+  cd /verif
+  tools/confirm_seed.sh seeded/$ID-seed$R > $D/confirm.log 2>&1
+  ONLY=$ID-seed$R tools/seed_matrix.sh > $D/detect.log 2>&1
+  rm -rf /tmp/mutm-harness/target /tmp/mutm-out-*
+) 9>/tmp/seedq.lock
+echo "done $ID-seed$R: $(jq -c '.confirmed' $D/confirm.json) $(jq -c '[.caught_by,.not_caught_by]' $D/detect.json)"
